@@ -36,16 +36,31 @@ func Parse(name, content string) (*Doc, error) {
 	if strings.HasSuffix(name, ".json") {
 		root, err = decodeJSON([]byte(content))
 	} else {
-		var j []byte
-		j, err = k8syaml.YAMLToJSON([]byte(content))
+		// YAML 1.2 (go.yaml.in/yaml/v4) is the deciding reader: OpenAPI 3.1 documents are YAML 1.2.
+		var t any
+		t, err = ParseYAMLv4(content)
 		if err == nil {
-			root, err = decodeJSON(j)
+			var ok bool
+			root, ok = t.(map[string]any)
+			if !ok {
+				err = fmt.Errorf("document root is not a mapping")
+			}
 		}
 	}
 	if err != nil {
 		return nil, fmt.Errorf("%s: %w", name, err)
 	}
 	return &Doc{Name: name, Root: root}, nil
+}
+
+// ParseYAML11 parses YAML with sigs.k8s.io/yaml (YAML 1.1 scalar resolution: y/n/yes/no/on/off
+// are booleans). Only used to *count* 1.1-vs-1.2 ambiguities, never for a verdict.
+func ParseYAML11(content string) (map[string]any, error) {
+	j, err := k8syaml.YAMLToJSON([]byte(content))
+	if err != nil {
+		return nil, err
+	}
+	return decodeJSON(j)
 }
 
 // ParseYAMLv4 parses YAML with the second parser (go.yaml.in/yaml/v4) for cross-checking.
@@ -84,8 +99,13 @@ func normYAML(v any) any {
 	case uint64:
 		return json.Number(fmt.Sprint(x))
 	case float64:
-		b, _ := json.Marshal(x)
+		b, err := json.Marshal(x)
+		if err != nil {
+			return fmt.Sprintf("!!float %v", x) // .inf/.nan: not representable in JSON
+		}
 		return json.Number(string(b))
+	case bool, string, nil:
+		return v
 	}
 	return v
 }
